@@ -116,6 +116,12 @@ META = {'C01': {'text': 'Model-based stateful property testing: random histories
          'design_ref': 'DESIGN.md §6 C17',
          'note': "Trusts the wall clock within the stated margins; deadlines are taken from SetTTL's return value and Extend's delta.",
          'technique': 'property-based testing (rapid-generated cases) with time-margin oracle against the real background cleanup'},
+ 'C18': {'text': 'Generated concurrent workloads under real parallelism in a race-detector build, with parsed and de-duplicated race reports '
+                 'compared against the listed findings, and a per-goroutine deadlock watchdog; serialized-schedule hangs are reported by the '
+                 'scheduler-based checks.',
+         'design_ref': 'DESIGN.md §6 C18',
+         'note': 'Trusts the Go race detector and the watchdog; absence of a report for a pair in one run is not evidence of absence.',
+         'technique': 'generated concurrent programs (rapid) under the Go race detector + watchdog; report de-duplication by racing function pair'},
  'C19': {'text': 'Model-based stateful property testing: trigger callbacks are recorded and compared, per transaction, with the event list the '
                  'reference model derives (post-merge values, issue order per row, one call per delete, none for rollbacks or after drop). '
                  'Exploration.',
